@@ -17,6 +17,7 @@ func init() {
 	register(&Rule{ID: "C04.R2", Prop: "C04", Floor: 6, Doc: "listeners run unlocked; the mutex is re-acquired before the deferred unlock", Run: c04r2})
 	register(&Rule{ID: "C04.R3", Prop: "C04", Floor: 3, Doc: "update stream returns at most the requested number of updates", Run: c04r3})
 	register(&Rule{ID: "C04.R5", Prop: "C04", Floor: 2, Doc: "registering a listener never replaces a live one: the key it is stored under is fresh", Run: c04r5})
+	register(&Rule{ID: "C04.R6", Prop: "C04", Floor: 1, Doc: "the supplement stored with a block is the one it was validated and applied with (the update stream recomputes updates from the stored pair)", Run: c04r6})
 	register(&Rule{ID: "C04.R4", Prop: "C04", Floor: 1, Doc: "reverting a block deletes its best-chain index entry (the update stream's on-best-chain test relies on it)", Run: func(c *Ctx) {
 		s := getStoreRoles(c.P)
 		ph, bw := bestIndexRoles(c, s)
@@ -383,5 +384,76 @@ func c04r5(c *Ctx) {
 				}
 			}
 		}
+	}
+}
+
+// c04r6: the supplement stored with a block is the supplement the block was applied with. The update stream
+// recomputes a block's update from what the store holds (block + supplement); if the apply step validated and applied
+// the block with one value (e.g. after the expiring-contract order override) and stored another, subscribers get
+// diffs and proofs that differ from the ledger at the tip although the node's own state is right.
+func c04r6(c *Ctx) {
+	r := getChainRoles(c.P)
+	f := r.view(r.applyTip)
+	applyBlock := c.P.FuncObj("consensus", "ApplyBlock")
+	c.VisitGraph(f)
+	g := f.Graph()
+	strip := func(e ast.Expr) ast.Expr {
+		e = ast.Unparen(e)
+		switch t := e.(type) {
+		case *ast.StarExpr:
+			return ast.Unparen(t.X)
+		case *ast.UnaryExpr:
+			if t.Op == token.AND {
+				return ast.Unparen(t.X)
+			}
+		}
+		return e
+	}
+	n := 0
+	for _, st := range f.CallsTo(false, r.storeAddBlock) {
+		if len(st.Expr.Args) != 2 {
+			continue
+		}
+		n++
+		ob := c.Ob(f, "stored-supplement-is-applied-supplement", st.Pos())
+		stored := strip(st.Expr.Args[1])
+		sn := g.NodeContaining(st.Pos())
+		// the consensus.ApplyBlock calls that can reach (or be reached from) this store step without leaving the function
+		matched, seen := false, 0
+		for _, ap := range f.CallsTo(false, applyBlock) {
+			if len(ap.Expr.Args) < 3 {
+				continue
+			}
+			an := g.NodeContaining(ap.Pos())
+			if an == nil || sn == nil {
+				continue
+			}
+			_, fwd := g.Reach([]*cfgx.Visit{cfgx.StartAt(an, 0)}, nil)[sn]
+			_, bwd := g.Reach([]*cfgx.Visit{cfgx.StartAt(sn, 0)}, nil)[an]
+			if !fwd && !bwd {
+				continue
+			}
+			seen++
+			applied := strip(ap.Expr.Args[2])
+			if sameLvalue(f, applied, stored) || sameLvalue(f, strip(origin(f, applied)), stored) || sameLvalue(f, applied, strip(origin(f, stored))) {
+				matched = true
+			} else {
+				ob.Bad(nil, "the block is applied with the supplement %s at %s but stored with %s at %s: the update stream recomputes the block's update from the stored value, so subscribers are handed diffs and proofs that do not match the tip's ledger", ir.ExprString(ap.Expr.Args[2]), c.P.Pos(ap.Pos()), ir.ExprString(st.Expr.Args[1]), c.P.Pos(st.Pos()))
+				matched = false
+				seen = -1
+				break
+			}
+		}
+		if seen == -1 {
+			continue
+		}
+		if seen == 0 {
+			ob.Unknown("no consensus.ApplyBlock on a path with the store step at %s", c.P.Pos(st.Pos()))
+			continue
+		}
+		ob.Check(matched, nil, "stored and applied supplement differ")
+	}
+	if n == 0 {
+		ir.Fail("the apply step does not store the block (Store.AddBlock)")
 	}
 }
